@@ -6,8 +6,11 @@
    collector starts waiting and what is done with what it hands back (Model/Confluence.v):
 
      submit (graph_manager.go:302-331): the tasks computed by calculateNextTasks are handed to the
-       task manager one by one; if nothing is outstanding and (there is one task or the manager is
-       in needAll mode) the first task is executed synchronously, after the others were spawned;
+       task manager one by one, each on a goroutine of its own or synchronously on the run loop's
+       (the code executes tasks[0] synchronously, after the others were spawned, if nothing is
+       outstanding and there is one task or the manager is in needAll mode; which task comes first in
+       that slice is Go map iteration order; nothing the property states depends on the choice, so the
+       composed system allows any task to be handed over in either way, in any order);
      wait: needAll (Graph: batch) = waitOne until nothing is outstanding, then the whole step is
        resolved in the order the tasks were collected; otherwise (Workflow: eager) one waitOne,
        the collected task is resolved at once; no task outstanding = "no tasks to execute";
@@ -36,7 +39,6 @@ Inductive phase := PWait | PGot.
 Record rl := mkrl {
   r_ch : cstate;                          (* the channels *)
   r_exp : list (node * val);              (* tasks still to be handed to the task manager *)
-  r_sy : bool;                            (* the last of them is executed synchronously *)
   r_run : list (node * val);              (* tasks created and not yet resolved *)
   r_col : list entry;                     (* the collected entries that have been resolved *)
   r_log : exec_log;                       (* every execution created so far *)
@@ -45,30 +47,23 @@ Record rl := mkrl {
   r_res : option outcome;                 (* Some = the run has returned *)
 }.
 
-Definition set_exp (r : rl) q := mkrl (r_ch r) q (r_sy r) (r_run r) (r_col r) (r_log r) (r_fuel r) (r_ph r) (r_res r).
-Definition set_ph (r : rl) p := mkrl (r_ch r) (r_exp r) (r_sy r) (r_run r) (r_col r) (r_log r) (r_fuel r) p (r_res r).
-Definition set_res (r : rl) o := mkrl (r_ch r) (r_exp r) (r_sy r) (r_run r) (r_col r) (r_log r) (r_fuel r) (r_ph r) (Some o).
-
-(* taskManager.submit: is one of the new tasks executed synchronously?  (It is tasks[0], handed over
-   after the others were spawned; which of the ready nodes comes first in that slice is Go map
-   iteration order, so any of them can be the one: the run loop hands the tasks over in any order
-   and the last one synchronously.) *)
-Definition sync_rule (needAll : bool) (n : nat) (ts : list (node * val)) : bool :=
-  Nat.eqb n 0 && (Nat.eqb (List.length ts) 1 || needAll).
+Definition set_exp (r : rl) q := mkrl (r_ch r) q (r_run r) (r_col r) (r_log r) (r_fuel r) (r_ph r) (r_res r).
+Definition set_ph (r : rl) p := mkrl (r_ch r) (r_exp r) (r_run r) (r_col r) (r_log r) (r_fuel r) p (r_res r).
+Definition set_res (r : rl) o := mkrl (r_ch r) (r_exp r) (r_run r) (r_col r) (r_log r) (r_fuel r) (r_ph r) (Some o).
 
 (* the next iteration of the run loop: [rest] = the tasks that stay in flight (eager mode) *)
 Definition enter (needAll : bool) (n : nat) (ch : cstate) (rest ts : list (node * val))
            (col : list entry) (log : exec_log) (fuel : nat) : rl :=
   if needAll then
     match fuel with
-    | O => mkrl ch [] false [] col log O PWait (Some OFuel)
-    | S f => mkrl ch ts (sync_rule true n ts) ts col (log ++ log_of ts) f PWait None
+    | O => mkrl ch [] [] col log O PWait (Some OFuel)
+    | S f => mkrl ch ts ts col (log ++ log_of ts) f PWait None
     end
-  else mkrl ch ts (sync_rule false n ts) (rest ++ ts) col (log ++ log_of ts) fuel PWait None.
+  else mkrl ch ts (rest ++ ts) col (log ++ log_of ts) fuel PWait None.
 
 Definition rl_init (needAll : bool) (m : mode) (g : graph) (fuel : nat) : rl :=
   match start_next m g with
-  | NReturn v => mkrl cinit [] false [] [] [] fuel PWait (Some (ODone v))
+  | NReturn v => mkrl cinit [] [] [] [] fuel PWait (Some (ODone v))
   | NTasks ts ch => enter needAll 0 ch [] ts [] [] fuel
   end.
 
@@ -111,7 +106,7 @@ Definition resolve_batch (m : mode) (g : graph) (s : st) (r : rl) : option rl :=
   | None => None
   | Some cts =>
       if negb (Nat.eqb (List.length cts) (List.length (r_run r))) then None else
-      let fin o := mkrl (r_ch r) [] false [] (collected s) (r_log r) (r_fuel r) PWait (Some o) in
+      let fin o := mkrl (r_ch r) [] [] (collected s) (r_log r) (r_fuel r) PWait (Some o) in
       if existsb failed cts then Some (fin OFail) else
       match cts with
       | [] => Some (fin OFail)                         (* "no tasks to execute" *)
@@ -131,7 +126,7 @@ Definition resolve_eager (g : graph) (s : st) (r : rl) : option rl :=
       | None => None
       | Some (x, rest) =>
           if negb (Bool.eqb e (flag_of x)) then None else
-          let fin o := mkrl (r_ch r) [] false rest (collected s) (r_log r) (r_fuel r) PWait (Some o) in
+          let fin o := mkrl (r_ch r) [] rest (collected s) (r_log r) (r_fuel r) PWait (Some o) in
           if failed x then Some (fin OFail) else
           match calc_next Dag g (r_ch r) [run_task x] with
           | NReturn v => Some (fin (ODone v))
@@ -145,10 +140,10 @@ Definition resolve_eager (g : graph) (s : st) (r : rl) : option rl :=
 Inductive cstep (needAll : bool) (m : mode) (g : graph) : st * rl -> st * rl -> Prop :=
 | c_proto s s' r :                       (* an executor or the collector moves *)
     step s s' -> num s' = num s -> cstep needAll m g (s, r) (s', r)
-| c_sub s r t q :                        (* the run loop hands one of the new tasks to the task manager *)
+| c_sub s r sy t q :                     (* the run loop hands one of the new tasks to the task manager *)
     r_res r = None -> split_task (tid t) (r_exp r) = Some (t, q) -> cp s = CIdle ->
     get_pc (tid t) (epcs s) = None ->
-    cstep needAll m g (s, r) (submit1 (r_sy r && is_nil q) t s, set_exp r q)
+    cstep needAll m g (s, r) (submit1 sy t s, set_exp r q)
 | c_await s r n :                        (* the run loop starts a waitOne *)
     r_res r = None -> r_exp r = [] -> r_ph r = PWait -> cp s = CIdle -> num s = S n ->
     cstep needAll m g (s, r) (await_st s n, set_ph r (if needAll then PWait else PGot))
@@ -179,8 +174,7 @@ Definition conf_ev (needAll : bool) (m : mode) (g : graph)
   | EvSpawn t b | EvSync t b =>
       match split_task t (r_exp r), r_res r with
       | Some (nt, q), None =>
-          if Bool.eqb (r_sy r && is_nil q) (match e with EvSync _ _ => true | _ => false end) &&
-             bres_eqb b (bres_of (fst nt))
+          if bres_eqb b (bres_of (fst nt))
           then match exec_ev2 sp e with Some sp' => Some (sp', set_exp r q) | None => None end
           else None
       | _, _ => None
